@@ -3,7 +3,7 @@
 //
 //	(a) wrapper  — the shape of types/utils.go ApplyFuncIfNoError as five booleans
 //	(b) blockers — for every BeginBlocker/EndBlocker of the DeFi modules the ordered top-level statements
-//	    units    — every ApplyFuncIfNoError call site reached from a blocker (nesting depth, inside a loop?)
+//	    units    — every ApplyFuncIfNoError call site reached from a blocker (nesting depth, inside a loop?, WHICH loop — the innermost enclosing loop statement —, and the loops written inside the closure)
 //	    entries  — every call and every potentially panicking operator (slice, index, / and %, type assertion,
 //	               panic) reached from a blocker, with the flag "inside an ApplyFuncIfNoError closure"
 //
@@ -51,6 +51,8 @@ type unit struct {
 	nest        int
 	loop        bool
 	pos         string
+	loopOver    string   // the innermost loop statement enclosing the wrapper call ("range allApps", "for …"), "" if none
+	inner       []string // the loop statements written inside the closure itself (not in the functions it calls)
 }
 
 type blocker struct {
@@ -243,6 +245,7 @@ type wctx struct {
 	fn       string
 	wrapped  int
 	loop     bool
+	loopOver string
 	depth    int
 	stack    map[string]bool
 	body     *ast.BlockStmt // body of the function being walked (for the slice-bound facts)
@@ -277,7 +280,9 @@ func visit(n ast.Node, c wctx) {
 		}
 		l := c
 		l.loop = true
+		l.loopOver = "for"
 		if x.Cond != nil {
+			l.loopOver = "for " + render(x.Cond)
 			visit(x.Cond, l)
 		}
 		if x.Post != nil {
@@ -288,10 +293,17 @@ func visit(n ast.Node, c wctx) {
 		visit(x.X, c)
 		l := c
 		l.loop = true
+		l.loopOver = "range " + render(x.X)
 		visit(x.Body, l)
 	case *ast.CallExpr:
 		if isApply(x) {
-			units = append(units, unit{c.blocker, c.fn, c.wrapped + 1, c.loop, rel(c.p, x.Pos())})
+			var inner []string
+			for _, a := range x.Args {
+				if fl, ok := a.(*ast.FuncLit); ok {
+					inner = append(inner, loopsIn(fl.Body)...)
+				}
+			}
+			units = append(units, unit{c.blocker, c.fn, c.wrapped + 1, c.loop, rel(c.p, x.Pos()), c.loopOver, inner})
 			for _, a := range x.Args {
 				if fl, ok := a.(*ast.FuncLit); ok {
 					in := c
@@ -346,6 +358,30 @@ func visit(n ast.Node, c wctx) {
 	default:
 		children(n, c)
 	}
+}
+
+// loopsIn: the loop statements written lexically inside a closure body (nested closures of further wrapper calls excluded:
+// those are units of their own).
+func loopsIn(n ast.Node) []string {
+	var out []string
+	ast.Inspect(n, func(m ast.Node) bool {
+		switch x := m.(type) {
+		case *ast.CallExpr:
+			if isApply(x) {
+				return false
+			}
+		case *ast.RangeStmt:
+			out = append(out, "range "+render(x.X))
+		case *ast.ForStmt:
+			if x.Cond != nil {
+				out = append(out, "for "+render(x.Cond))
+			} else {
+				out = append(out, "for")
+			}
+		}
+		return true
+	})
+	return out
 }
 
 func containsApply(n ast.Node) bool {
@@ -615,7 +651,7 @@ func main() {
 	w("Wrapper shape read from %s. -/\n", shPos)
 	w("namespace Comdex.Gen.Hooks\n\n")
 	w("structure Blocker where\n  name : String\n  file : String\n  top : List String\nderiving DecidableEq, Repr\n\n")
-	w("structure UnitSite where\n  blocker : String\n  fn : String\n  inFn : String\n  nest : Nat\n  loop : Bool\n  pos : String\n  liveCtx : Bool\n  returnsNonNil : Bool\nderiving DecidableEq, Repr\n\n")
+	w("structure UnitSite where\n  blocker : String\n  fn : String\n  inFn : String\n  nest : Nat\n  loop : Bool\n  pos : String\n  liveCtx : Bool\n  returnsNonNil : Bool\n  loopOver : String\n  innerLoops : List String\nderiving DecidableEq, Repr\n\n")
 	w("structure SliceSource where\n  callee : String\n  sameLoop : Bool\nderiving DecidableEq, Repr\n\n")
 	w("structure SliceFact where\n  blocker : String\n  inFn : String\n  expr : String\n  listSrc : String\n  listSameLoop : Bool\n  sources : List SliceSource\n  pos : String\nderiving DecidableEq, Repr\n\n")
 	w("structure ErrSite where\n  blocker : String\n  fn : String\n  inFn : String\n  unit : String\n  callee : String\n  disp : String\n  pos : String\nderiving DecidableEq, Repr\n\n")
@@ -645,7 +681,12 @@ func main() {
 			inFn = inFn[i+1:]
 		}
 		uf := unitFacts[u.pos]
-		w("  ⟨%s, %s, %s, %d, %s, %s, %s, %s⟩%s\n", q(u.blocker), q(u.fn), q(inFn), u.nest, b(u.loop), q(u.pos), b(uf[0]), b(uf[1]), sep)
+		in := make([]string, len(u.inner))
+		for j, x := range u.inner {
+			in[j] = q(x)
+		}
+		w("  ⟨%s, %s, %s, %d, %s, %s, %s, %s, %s, [%s]⟩%s\n", q(u.blocker), q(u.fn), q(inFn), u.nest, b(u.loop), q(u.pos), b(uf[0]), b(uf[1]), q(u.loopOver),
+			strings.Join(in, ", "), sep)
 	}
 	w("]\n\n")
 	// entries: split into the unwrapped ones (the obligations range over these) and the wrapped ones
